@@ -19,6 +19,12 @@ func strip(v ssa.Value) ssa.Value {
 		switch x := v.(type) {
 		case *ssa.ChangeType:
 			v = x.X
+		case *ssa.Parameter, *ssa.Call, *ssa.Extract:
+			if a := resolveAlias(v); a != v {
+				v = a
+				continue
+			}
+			return v
 		default:
 			return v
 		}
@@ -35,6 +41,12 @@ func stripConv(v ssa.Value) ssa.Value {
 		case *ssa.Convert:
 			if isIntegral(x.Type()) && isIntegral(x.X.Type()) {
 				v = x.X
+				continue
+			}
+			return v
+		case *ssa.Parameter, *ssa.Call, *ssa.Extract:
+			if a := resolveAlias(v); a != v {
+				v = a
 				continue
 			}
 			return v
@@ -374,6 +386,10 @@ func accessPath(v ssa.Value) []PE {
 		case *ssa.Global:
 			out = append(out, PE{Kind: "global", Global: x, V: x})
 		case *ssa.Parameter:
+			if a := resolveAlias(v); a != v {
+				rec(a, depth+1)
+				return
+			}
 			out = append(out, PE{Kind: "param", V: x})
 		case *ssa.FreeVar:
 			out = append(out, PE{Kind: "freevar", V: x})
@@ -412,7 +428,17 @@ func accessPath(v ssa.Value) []PE {
 			rec(x.X, depth+1)
 			out = append(out, PE{Kind: "conv", V: x})
 		case *ssa.Call:
+			if a := resolveAlias(v); a != v {
+				rec(a, depth+1)
+				return
+			}
 			out = append(out, PE{Kind: "call", V: x})
+		case *ssa.Extract:
+			if a := resolveAlias(v); a != v {
+				rec(a, depth+1)
+				return
+			}
+			out = append(out, PE{Kind: "other", V: v})
 		case *ssa.Phi:
 			out = append(out, PE{Kind: "phi", V: x})
 		case *ssa.Const:
